@@ -904,3 +904,105 @@ def rule_borrowed_accrec_not_released(ctx):
     ctx.holds("ACCRECOWN", "ACCRECOWN:population", "-", "%d routines look a record up from a caller's id; %d of them release one" % (pop, n), nontrivial=False)
     ctx.floor("ACCRECOWN", 30, pop, "(routines that look a record up from a caller's id)")
     return n
+
+
+class _AttachExcl(PathAnalysis):
+    """user = frozenset of 'L' (an existing instance was looked up with vsinst/vginst), 'Z' (its attach count is known to be 0 on this
+    path), 'B' (a store to the shared access id happened with L and without Z)"""
+
+    def __init__(self, prog, lookup, count, shared):
+        super().__init__(prog)
+        self.lookup, self.count, self.shared = lookup, count, shared
+        self.sites = {}
+
+    def init_user(self, func):
+        return frozenset()
+
+    def on_stmt(self, func, bid, idx, stmt, env, user):
+        from .facts import kind, strip
+        u = set(user)
+        for x in walk(stmt["e"]):
+            if x[0] == "call" and x[1] in self.lookup:
+                u.add("L")
+                u.discard("Z")
+            elif x[0] == "asg" and x[1] == "=" and (mem_field(x[2]) or (0, 0))[1] == self.shared:
+                if "L" in u:
+                    line = stmt.get("l", 0)
+                    self.sites[line] = self.sites.get(line, True) and ("Z" in u)
+            elif x[0] == "asg" and (mem_field(x[2]) or (0, 0))[1] == self.count:
+                u.discard("Z")
+            elif x[0] == "incdec" and (mem_field(x[3]) or (0, 0))[1] == self.count:
+                u.discard("Z")
+        return frozenset(u)
+
+    def on_assume(self, func, bid, cond, pol, env, user):
+        from .facts import kind, strip, is_int
+        c = strip(cond)
+        zero = None
+        if (mem_field(c) or (0, 0))[1] == self.count:
+            zero = not pol
+        elif kind(c) == "bin" and c[1] in ("==", "!=", ">") and (mem_field(c[2]) or (0, 0))[1] == self.count and is_int(c[3], 0):
+            zero = (pol if c[1] == "==" else not pol)
+        elif kind(c) == "un" and c[1] == "!" and (mem_field(c[2]) or (0, 0))[1] == self.count:
+            zero = pol
+        if zero:
+            return frozenset(set(user) | {"Z"})
+        return user
+
+
+def rule_attach_exclusive(ctx):
+    """ATTACHEXCL (C13): all ids of one Vdata share one instance record, and the instance holds *one* access element (`vs->aid`) and one
+    access mode.  VSattach may therefore start a new access element for an instance it found in the table only when nothing is
+    attached to it (`nattach == 0` on that path); otherwise it replaces the element the outstanding ids are using — a reader starts
+    reading at record 0 again, a read id can write, the replaced element is never ended and Hclose fails after every id was
+    released.  (Sharing an existing *read* attachment does not store into vs->aid and is not an instance.)"""
+    prog = ctx.prog
+    f = prog.func("VSattach")
+    if f is None:
+        ctx.unrecognised("ATTACHEXCL", "ATTACHEXCL:VSattach", "-", "VSattach not found")
+        return 0
+    a = _AttachExcl(prog, {"vsinst"}, "nattach", "aid")
+    a.fails = fail_values(f, prog)
+    a.run(f)
+    for i, (line, ok) in enumerate(sorted(a.sites.items())):
+        key = "ATTACHEXCL:VSattach#%d" % (i + 1)
+        if ok:
+            ctx.holds("ATTACHEXCL", key, f.where(line), "the shared access id of a looked-up instance is replaced only on paths where its attach count is 0", nontrivial=True)
+        else:
+            ctx.violated("ATTACHEXCL", key, f.where(line), "VSattach stores a new access element into `vs->aid` of an instance found in the table on a path where that instance may still be attached "
+                         "(nattach not known to be 0): the outstanding ids of that Vdata now use the wrong access element and mode")
+    ctx.floor("ATTACHEXCL", 2, len(a.sites), "(stores to the shared access id of a looked-up Vdata instance)")
+    return len(a.sites)
+
+
+def rule_group_check_is_not_lookup(ctx):
+    """GROUPONLY (C13): HAatom_group(id) reads the group number out of the id's bits; it says nothing about whether the id is (still)
+    registered.  A public routine that validates an id parameter with HAatom_group must therefore also look it up
+    (HAatom_object / HAremove_atom on that id, in the routine itself) before it can answer with success: otherwise a released
+    id is accepted whenever no later step happens to need the object."""
+    from .facts import kind, strip
+    prog = ctx.prog
+    n = 0
+    LOOK = {"HAatom_object", "HAPatom_object", "HAremove_atom"}
+    for f in prog.lib_funcs():
+        if not prog.is_public(f.name):
+            continue
+        params = {q[0] for q in f.params}
+        grp, obj = {}, set()
+        for _b, _i, s, c in f.calls():
+            if not c[3] or kind(strip(c[3][0])) != "var":
+                continue
+            v = strip(c[3][0])[1]
+            if c[1] == "HAatom_group" and v in params:
+                grp.setdefault(v, s.get("l", f.line))
+            elif c[1] in LOOK:
+                obj.add(v)
+        for v, line in sorted(grp.items()):
+            n += 1
+            key = "GROUPONLY:%s:%s" % (f.name, v)
+            if v in obj:
+                ctx.holds("GROUPONLY", key, f.where(line), "`%s` is looked up in the atom table, not only classified by its group bits" % v, nontrivial=True)
+            else:
+                ctx.violated("GROUPONLY", key, f.where(line), "%s validates `%s` with HAatom_group only and never looks it up: an id that was released (or never issued) with the right group bits is accepted" % (f.name, v))
+    ctx.floor("GROUPONLY", 60, n, "(public routines that classify an id parameter with HAatom_group)")
+    return n
